@@ -65,14 +65,38 @@ func freePort() int {
 	return l.Addr().(*net.TCPAddr).Port
 }
 
-func startServer(auth, tracing bool) *server {
+// startServer starts a REST API. With fromFile the configuration takes the
+// daemon's route: the restapi section as JSON (credentials in the file), then
+// LoadJSON and ApplyEnvVars; otherwise it is filled in Go.
+func startServer(auth, tracing, fromFile bool) *server {
 	port := freePort()
 	cfg := &rest.Config{}
 	cfg.Default()
 	la, _ := ma.NewMultiaddr(fmt.Sprintf("/ip4/127.0.0.1/tcp/%d", port))
-	cfg.HTTPListenAddr = []ma.Multiaddr{la}
-	if auth {
-		cfg.BasicAuthCredentials = map[string]string{user: pass, user2: pass2}
+	if fromFile {
+		raw, err := cfg.ToJSON()
+		if err != nil {
+			panic(err)
+		}
+		var sec map[string]interface{}
+		json.Unmarshal(raw, &sec)
+		sec["http_listen_multiaddress"] = la.String()
+		if auth {
+			sec["basic_auth_credentials"] = map[string]string{user: pass, user2: pass2}
+		}
+		raw, _ = json.Marshal(sec)
+		cfg = &rest.Config{}
+		if err := cfg.LoadJSON(raw); err != nil {
+			panic(err)
+		}
+		if err := cfg.ApplyEnvVars(); err != nil {
+			panic(err)
+		}
+	} else {
+		cfg.HTTPListenAddr = []ma.Multiaddr{la}
+		if auth {
+			cfg.BasicAuthCredentials = map[string]string{user: pass, user2: pass2}
+		}
 	}
 	cfg.Tracing = tracing
 	a, err := rest.NewAPI(context.Background(), cfg)
@@ -93,10 +117,10 @@ func startServer(auth, tracing bool) *server {
 }
 
 func TestMain(m *testing.M) {
-	srvs[0] = startServer(false, false)
-	srvs[1] = startServer(true, false)
-	srvs[2] = startServer(false, true)
-	srvs[3] = startServer(true, true)
+	srvs[0] = startServer(false, false, true)
+	srvs[1] = startServer(true, false, true)
+	srvs[2] = startServer(false, true, false)
+	srvs[3] = startServer(true, true, false)
 	code := m.Run()
 	ev.Flush()
 	os.Exit(code)
@@ -492,7 +516,7 @@ func TestAddRaw(t *testing.T) {
 // parserBuffered says whether the query asks for a buffered answer.
 func parserBuffered(q url.Values) bool { return q.Get("stream-channels") == "false" }
 
-const ruleRaw = "raw HTTP requests against four real API instances (with and without basic-auth credentials, with and without request tracing): a route of the route table with valid or invalid path variables (CID v0/v1, truncated CID, text, peer ID, ipfs/ipns/ipld paths with sub-segments containing space, ?, #, %, unicode), each pin option present or absent with a valid or (one) invalid value, bodies for POST /peers, status filters, local flags; or an unknown path / wrong method; credentials (two users configured) none, wrong user, wrong password, unknown or known or empty user with an empty password, one user's name with the other's password, a garbage or non-basic Authorization header, right; oracle from the harness's own parse of what it sent: 401 and no RPC without valid credentials, 4xx and no RPC for any malformed element, otherwise exactly the named RPC with the CID/path and options sent; body is one JSON document; non-trivial = at least one option and (exactly one malformed element, or fully valid with >= 3 options); distinct by request line + credentials"
+const ruleRaw = "raw HTTP requests against four real API instances (with and without basic-auth credentials, with and without request tracing; two of them configured the way the daemon does it: restapi section as JSON with the credentials in it, LoadJSON, ApplyEnvVars): a route of the route table with valid or invalid path variables (CID v0/v1, truncated CID, text, peer ID, ipfs/ipns/ipld paths with sub-segments containing space, ?, #, %, unicode), each pin option present or absent with a valid or (one) invalid value, bodies for POST /peers, status filters, local flags; or an unknown path / wrong method; credentials (two users configured) none, wrong user, wrong password, unknown or known or empty user with an empty password, one user's name with the other's password, a garbage or non-basic Authorization header, right; oracle from the harness's own parse of what it sent: 401 and no RPC without valid credentials, 4xx and no RPC for any malformed element, otherwise exactly the named RPC with the CID/path and options sent; body is one JSON document; non-trivial = at least one option and (exactly one malformed element, or fully valid with >= 3 options); distinct by request line + credentials"
 
 func TestRaw(t *testing.T) {
 	leg := ev.L("raw-requests", ruleRaw)
